@@ -1,6 +1,8 @@
 package symex
 
 import (
+	"go/types"
+
 	"golang.org/x/tools/go/ssa"
 
 	"verif/engine/smt"
@@ -27,7 +29,23 @@ type BankModel struct {
 	SendErrEnv *smt.Term
 }
 
-const bankBound = uint64(1) << 40
+// materializeCoins turns the modelled sdk.Coins (two denominations, an absent coin is a zero
+// amount) into a slice of Coin structs, forking on which denominations are present.
+func (e *Exec) materializeCoins(o Opaque, t types.Type) Slice {
+	c := o.Data.(*coinsVal)
+	st, ok := t.Underlying().(*types.Slice)
+	if !ok {
+		panic(engineErr("coins used as %v", t))
+	}
+	var elems []Value
+	for d := 0; d < 2; d++ {
+		if e.branch(smt.Ne(c.Amt[d], c0)) {
+			elems = append(elems, &Struct{Fields: []Value{constStr(bankDenoms[d]), Opaque{Kind: "sdkint", Data: c.Amt[d]}}})
+		}
+	}
+	arr := e.newObj(types.NewArray(st.Elem(), int64(len(elems))), &Array{Elems: elems})
+	return Slice{Arr: arr, Off: 0, Len: len(elems), Cap: len(elems)}
+}
 
 // the two modelled denominations, in sorted order (index 0 sorts first)
 var bankDenoms = [2]string{"aaa", "umed"}
@@ -55,7 +73,6 @@ func init() {
 			k := e.siteKey(site)
 			t := smt.Var("in:"+k, smt.BV64)
 			e.addSite(NondetSite{Key: k, Kind: "u64", Term: t})
-			e.assume(smt.ULe(t, smt.Const(bankBound, 64)))
 			return t
 		}
 		for d := 0; d < 2; d++ {
@@ -63,10 +80,13 @@ func init() {
 			b.Locked[d] = mk("burnLocked")
 			b.Total[1][d] = mk("moduleTotal")
 			rest := mk("restOfSupply")
-			b.Supply[d] = smt.Add(smt.Add(b.Total[0][d], b.Total[1][d]), rest)
+			// any 64-bit amounts whose sum (the total supply of the denomination) fits in 64 bits
+			s1 := smt.Add(b.Total[0][d], b.Total[1][d])
+			b.Supply[d] = smt.Add(s1, rest)
+			e.assume(smt.And(smt.ULe(b.Total[0][d], s1), smt.ULe(s1, b.Supply[d])))
 		}
 		e.path.bank = b
-		e.Notes["BANK contract model: 2 denominations, burn address + burn module account, amounts <= 2^40; multi-denom sends debit in denom order and stop at the first insufficient spendable balance (cosmos-sdk v0.47.12 subUnlockedCoins)"] = true
+		e.Notes["BANK contract model: 2 denominations, burn address + burn module account, arbitrary 64-bit amounts with a total supply below 2^64 per denomination; multi-denom sends debit in denom order and stop at the first insufficient spendable balance (cosmos-sdk v0.47.12 subUnlockedCoins)"] = true
 		return nil
 	}
 	get := func(name string, f func(b *BankModel, d int) *smt.Term) {
@@ -119,6 +139,33 @@ func init() {
 			}
 			return smt.False
 		}
+	}
+	intTerm := func(v Value, m string) *smt.Term {
+		t, ok := v.(Opaque).Data.(*smt.Term)
+		if !ok {
+			panic(engineErr("math.Int.%s on an unmodelled value", m))
+		}
+		return t
+	}
+	stubs["(cosmossdk.io/math.Int).IsInt64"] = func(e *Exec, fn *ssa.Function, args []Value) Value {
+		return smt.ULt(intTerm(args[0], "IsInt64"), smt.Const(1<<63, 64))
+	}
+	stubs["(cosmossdk.io/math.Int).IsUint64"] = func(e *Exec, fn *ssa.Function, args []Value) Value {
+		intTerm(args[0], "IsUint64")
+		return smt.True
+	}
+	stubs["(cosmossdk.io/math.Int).Int64"] = func(e *Exec, fn *ssa.Function, args []Value) Value {
+		t := intTerm(args[0], "Int64")
+		if e.branch(smt.UGe(t, smt.Const(1<<63, 64))) {
+			e.goPanicf("Int64() out of bound")
+		}
+		return t
+	}
+	stubs["(cosmossdk.io/math.Int).Uint64"] = func(e *Exec, fn *ssa.Function, args []Value) Value {
+		return intTerm(args[0], "Uint64")
+	}
+	stubs["(cosmossdk.io/math.Int).String"] = func(e *Exec, fn *ssa.Function, args []Value) Value {
+		return e.opaqueString("int")
 	}
 	stubs["(github.com/cosmos/cosmos-sdk/types.Coins).String"] = func(e *Exec, fn *ssa.Function, args []Value) Value {
 		return e.opaqueString("coins")
